@@ -14,7 +14,7 @@ one(){
   cd $W
   export CARGO_NET_OFFLINE=true CARGO_TARGET_DIR=$T
   OUT=$D/confirmed.txt
-  DEMO=$(python3 -c "import json,sys,re; m=json.load(open('$D/meta.json'))['how_to_run_demo']; m=re.sub(r'^.*?cargo test','',m); m=m.replace('--offline',''); print(m.split('&&')[0].split(';')[0].strip())")
+  DEMO=$(python3 -c "import json,sys,re; m=json.load(open('$D/meta.json'))['how_to_run_demo']; m=re.sub(r'^.*?cargo test','',m); m=m.replace('--offline',''); m=re.sub(r'\(.*$','',m); m=re.sub(r'#.*$','',m); print(m.split('&&')[0].split(';')[0].strip())")
   echo "confirmation run $(date -u +%FT%TZ) against /repo HEAD $(git -C /repo rev-parse --short HEAD)" > $OUT
   if ! git apply --whitespace=nowarn $D/patch.diff; then echo "PATCH DOES NOT APPLY" >> $OUT; else
   echo "== existing suite with patch" >> $OUT
